@@ -374,7 +374,11 @@ theorem HSameS_of_carve (env : CEnv) :
       simp only [NoDeadVarlS] at hn
       simp only [HSameS, HSame_of_carveE _ e hf hc.1 hn]
   | .skip _, _, _, _ => by simp only [HSameS]
-  | .exprstmt _, hf, _, _ => by simp [HybFreeS] at hf
+  | .exprstmt e, hf, hc, hn => by
+      simp only [HybFreeS] at hf
+      simp only [CarveS] at hc
+      simp only [NoDeadVarlS] at hn
+      simp only [HSameS, HSame_of_carveE _ e hf hc hn]
   | .ret _, hf, _, _ => by simp [HybFreeS] at hf
   | .ite c t none, hf, hc, hn => by
       simp only [HybFreeS, Bool.and_eq_true, and_true] at hf
